@@ -1,0 +1,19 @@
+//go:build verif
+
+package route
+
+import (
+	"github.com/grafana/carbon-relay-ng/persister"
+	"github.com/grafana/metrictank/schema"
+)
+
+// VerifGetSchemas and VerifParseMetric give the verification harness (build
+// tag verif) access to the unexported storage-schemas loader and the
+// line -> MetricData conversion shared by the grafanaNet and kafkaMdm routes.
+func VerifGetSchemas(file string) (persister.WhisperSchemas, error) {
+	return getSchemas(file)
+}
+
+func VerifParseMetric(buf []byte, schemas persister.WhisperSchemas, orgId int) (*schema.MetricData, error) {
+	return parseMetric(buf, schemas, orgId)
+}
